@@ -1,15 +1,15 @@
 \* C14 as-built specification, state graph exported for replay
 SPECIFICATION Spec
 CONSTANTS
-  N = 2
+  N = 1
   Catalogue = "small"
-  Relations = {"none", "parent", "dep", "group", "gd"}
-  MaxSet = 1
-  MaxWrite = 2
+  Relations = {"none"}
+  MaxSet = 0
+  MaxWrite = 1
   Validates = {FALSE, TRUE}
-  SetClass = "all"
-  MaxEdit = 0
-  MaxAssign = 0
+  SetClass = "none"
+  MaxEdit = 1
+  MaxAssign = 1
   UpdEnabled = {TRUE}
   Deviations = {"EmptyStrAsNone", "InfTextAsFloat", "UuidTextAsId", "NoneMemberAsText", "IsValueFlipOnNone", "FileFormRejectsWorkspace", "GroupPropagation"}
 VIEW vw
